@@ -16,6 +16,7 @@ if r.returncode:
     sys.exit(f"patch does not apply: {r.stderr}")
 subprocess.run(["git", "-C", "/repo", "apply", diff], check=True)
 results = {}
+saved_evidence = {c: open(f"/verif/evidence/{c}.json").read() for c in checks if os.path.exists(f"/verif/evidence/{c}.json")}
 try:
     for c in checks:
         p = subprocess.run(["/verif/verif", "check", c], capture_output=True, text=True)
@@ -27,6 +28,8 @@ try:
                       "summary": out.strip().splitlines()[-1] if out.strip() else ""}
 finally:
     subprocess.run(["git", "-C", "/repo", "checkout", "--", "."], check=True)
+    for c, txt in saved_evidence.items():  # evidence files describe the unchanged tree only
+        open(f"/verif/evidence/{c}.json", "w").write(txt)
 if os.path.abspath(diff) != os.path.abspath(f"{dst}/patch.diff"):
     shutil.copy(diff, f"{dst}/patch.diff")
 for ext in ("_demo.py", ".md"):
